@@ -333,6 +333,8 @@ func checkOne(s *Session, prop, tier string, jobs int) int {
 	{
 		var slow []*Obligation
 		for _, ob := range smtObs {
+			// "unknown" counts too: when the one solver that can decide an obligation (often cvc5) runs out of time on a loaded
+			// machine while another one answers "unknown" at once, the race ends in "unknown"
 			if ob.Result == "timeout" && ob.vc != nil {
 				slow = append(slow, ob)
 			}
@@ -342,6 +344,19 @@ func checkOne(s *Session, prop, tier string, jobs int) int {
 				ob.Result, ob.Raw, ob.Backend = "", "", ""
 			}
 			s.solver.Solve(slow, tier == "thorough", 60, 4)
+		}
+		// a few "unknown" results get one more chance with a long budget and little parallelism (bounded: at most 6 obligations)
+		var unk []*Obligation
+		for _, ob := range smtObs {
+			if ob.Result == "unknown" && ob.vc != nil && !isOpenKnownFinding(ob.Name) {
+				unk = append(unk, ob)
+			}
+		}
+		if n := len(unk); n > 0 && n <= 6 {
+			for _, ob := range unk {
+				ob.Result, ob.Raw, ob.Backend = "", "", ""
+			}
+			s.solver.Solve(unk, false, 45, 2)
 		}
 	}
 	s.solver.SolveCanaries(pr.canaries, jobs)
